@@ -11,7 +11,7 @@
    argument-coercion options, which the state-passing model does not distinguish. *)
 From Coq Require Import ZArith List String Bool Permutation.
 From TV Require Import Py.Prelude Model.Schema Model.ImplInput Model.ImplExec Model.SpecExec Model.Async Proofs.AsyncProofs
-     Proofs.ExecRefine.
+     Proofs.ExecRefine Proofs.AsyncBridge.
 Import ListNotations.
 Open Scope list_scope.
 
@@ -90,6 +90,36 @@ Proof.
   exists r1, r2. repeat split; congruence.
 Qed.
 
+(* the executor written in the calculus, run with every coroutine completing at once, IS the
+   state-passing executor C01-C03 are proved about: same data, same errors, same invocations *)
+Theorem C08_calculus_executor_is_the_executor sch doc vs U cfg op root :
+  response_of (fst (run_seq (resolver U) (a_execute_operation sch doc vs U cfg op root)))
+              (snd (run_seq (resolver U) (a_execute_operation sch doc vs U cfg op root))) =
+  execute_operation sch doc vs U cfg op root.
+Proof. exact (execute_operation_bridge sch doc vs U cfg op root). Qed.
+
+(* hence, under EVERY schedule of the resolver completions and EVERY configuration, a request for
+   which the specification's algorithm has a result is answered with exactly that data, and with
+   the errors and invocations of the sequential run up to their order *)
+Theorem C08_every_schedule_and_configuration_gives_the_specified_data sch doc vs U cfg op root picks r evs d o :
+  spec_execute_operation sch doc vs U op root = Some (d, o) ->
+  run_sched (resolver U) picks (a_execute_operation sch doc vs U cfg op root) = Some (PDone r, evs) ->
+  r = RVal d /\
+  exists resp, execute_operation sch doc vs U cfg op root = OVal resp /\
+               Permutation (errors_of evs) (r_errors resp) /\ Permutation (calls_of evs) (r_log resp).
+Proof.
+  intros Hspec Hrun.
+  destruct (schedule_independence _ _ _ _ _ Hrun) as [Hr Hp].
+  destruct (execute_operation_refines_spec sch doc vs U cfg op root d o Hspec) as (resp & Eresp & Hd).
+  pose proof (execute_operation_bridge sch doc vs U cfg op root) as Hb. rewrite Eresp in Hb.
+  destruct (run_seq (resolver U) (a_execute_operation sch doc vs U cfg op root)) as [r0 ev0]. cbn [fst snd] in *. subst r.
+  destruct r0; cbn [response_of] in Hb; try discriminate. inversion Hb as [Hresp]. subst resp. cbn [r_data] in Hd. subst v.
+  split; [reflexivity|]. eexists. split; [exact Eresp|]. cbn [r_errors r_log].
+  split; apply flat_map_perm'; exact Hp.
+Qed.
+
+Print Assumptions C08_calculus_executor_is_the_executor.
+Print Assumptions C08_every_schedule_and_configuration_gives_the_specified_data.
 Print Assumptions C08_config_data_eq.
 Print Assumptions C08_schedule_independence.
 Print Assumptions C08_any_two_schedules_agree.
